@@ -481,7 +481,7 @@ package vanguard
 //@   requires[C03] !w.rw.endWritten || len(data) == 0
 //@   step rwStep(w.rw)
 //@   ensures[C08] 0 <= n && n <= len(data) && (err == nil ==> n == len(data))
-//@   ensures twRest(w) && w.rw == old(w.rw)
+//@   ensures[C08,C10,C09,C03] twRest(w) && w.rw == old(w.rw)
 //@   loop 1 invariant[C08] written >= 0 && written + len(data) == len(old(data))
 //@   loop 1 invariant twInv(w) && (w.err == nil ==> w.buffer != nil && w.expectingBytes != -1) && w.rw == old(w.rw) && rwStep(w.rw)
 //@   loop 1 invariant[C03] old(w.rw.endWritten) ==> len(data) == 0 && (w.err == nil ==> blen(w.buffer) < w.expectingBytes)
@@ -633,6 +633,8 @@ package vanguard
 //@   requires validER(r)
 //@   step rwStep(r.rw)
 //@   atcall[C08] (io.Reader).Read: r.envRemain == 0
+//@   track reads = (io.Reader).Read
+//@   atcall[C08,C01] (io.Reader).Read: reads == 1 || bytesRead == 0
 //@   ensures[C08] 0 <= n && n <= len(data)
 //@   ensures[C08,C01] n > 0 ==> !errIs(err, io.EOF)
 //@   ensures[C08] old(r.err) == nil && old(r.envRemain) > 0 ==> n >= min(len(data), old(r.envRemain)) && r.envRemain == old(r.envRemain) - min(len(data), old(r.envRemain))
